@@ -9,6 +9,7 @@ require (
 	go.uber.org/zap v1.24.0
 	golang.org/x/crypto v0.9.0
 	golang.zx2c4.com/wireguard v0.0.0-20220920152132-bb719d3a6e2c
+	google.golang.org/protobuf v1.28.0
 )
 
 require (
@@ -26,7 +27,6 @@ require (
 	golang.org/x/net v0.10.0 // indirect
 	golang.org/x/sync v0.2.0 // indirect
 	golang.org/x/sys v0.8.0 // indirect
-	google.golang.org/protobuf v1.28.0 // indirect
 	gopkg.in/yaml.v3 v3.0.1 // indirect
 )
 
